@@ -173,7 +173,7 @@ def impl_eval(c):
     return bu.run_read_fresh(lambda: f(x, mk_bits(c[3])), x)
   if k.startswith('reduce'):
     x = bu.mk(c[1], c[2]); f = {'reduce_and': reduce_and, 'reduce_or': reduce_or, 'reduce_xor': reduce_xor}[k]
-    return bu.run(lambda: f(x))
+    return bu.run_read_fresh(lambda: f(x), x)        # the result is a value of its own: updating it in place changes no later result
   if k == 'clog2':
     return bu.run_int(lambda: clog2(c[1]))
   if k == 'vcd':
